@@ -38,7 +38,8 @@ SetupEvents ==
     \o FlattenSeq([i \in 1..Len(Nodes) |->
          << [E0 EXCEPT !.kind = "Create", !.creator = Nodes[i]],
             [E0 EXCEPT !.kind = "Reset", !.creator = Nodes[i], !.status = IF Nodes[i] = Gateway THEN 15 ELSE 13,
-                       !.tx = IF Nodes[i] = Gateway THEN <<"a08">> ELSE <<>>],
+                       \* a02 declares somebody else's address (a04) as its own transaction address
+                       !.tx = IF Nodes[i] = Gateway THEN <<"a08">> ELSE IF Nodes[i] = "a02" THEN <<"a04">> ELSE <<>>],
             [E0 EXCEPT !.kind = "AddVstorage", !.creator = Nodes[i], !.size = 2000000] >>])
 
 InitState == FoldLeft(LAMBDA s, e : Apply(Cfg, s, e).st, Gen.post, SetupEvents)
@@ -85,6 +86,10 @@ GStoreNew(s) ==
     {[E0 EXCEPT !.kind = "Store", !.creator = Gateway, !.provider = Gateway, !.gw = Gateway, !.owner = o, !.signer = o,
                 !.data = d, !.commit = d, !.cseg = <<d>>, !.op = 1, !.dur = GDur(s, 0), !.replica = GRep(s, 0), !.timeout = GTo(s, 0),
                 !.size = GSize(s, 0), !.alias = "al" \o d] : d \in {x \in GData(s) : ~HasMeta(s, x)}, o \in {"d1"}}
+    \cup \* the owner-signed request names the gateway, but is submitted through another node's declared address
+    {[E0 EXCEPT !.kind = "Store", !.creator = "a04", !.provider = "a02", !.gw = Gateway, !.owner = "d1", !.signer = "d1",
+                !.data = d, !.commit = d, !.cseg = <<d>>, !.op = 1, !.dur = GDur(s, 0), !.replica = 1, !.timeout = GTo(s, 0),
+                !.size = GSize(s, 0), !.alias = "al" \o d] : d \in {x \in GData(s) : ~HasMeta(s, x)}}
 GStoreUpd(s) ==
     UNION {LET nc == "c" \o ToString(s.oc) IN
            {[E0 EXCEPT !.kind = "Store", !.creator = cr, !.provider = Gateway, !.gw = Gateway, !.owner = sg, !.signer = sg, !.sigmode = sm,
